@@ -74,7 +74,8 @@ JSON_DEEP = Rec("Json", lambda self: OneOf(NoneT, Bool, Int, Float, Str, ListOf(
 # Shallow JSON kind test (no recursion): what the code under contract can observe of a parsed JSON value at one
 # level.  Deeper levels are constrained only where a contract says so; counter-models are repaired into JSON
 # before they are replayed (non-JSON leaves become null), and only native replays decide violations.
-JSON = OneOf(NoneT, Bool, Int, Float, Str, Pred(V.is_VList, "list"), Pred(V.is_VDict, "dict"))
+JOBJ = DictOf(Str, Any, name="jobj")      # well-formed association list with distinct string keys
+JSON = OneOf(NoneT, Bool, Int, Float, Str, Pred(V.is_VList, "list"), JOBJ)
 
 
 # --------------------------------------------------------------------------- maps (comprehension spec side)
